@@ -29,12 +29,14 @@ enum Op {
     VAR, CONST_E,
     ADD_EE, SUB_EE, MUL_EE, DIV_EE, ADD_ES, SUB_ES, MUL_ES, DIV_ES, ADD_SE, SUB_SE, MUL_SE, DIV_SE,
     CADD_EE, CSUB_EE, CMUL_EE, CDIV_EE, CADD_ES, CSUB_ES, CMUL_ES, CDIV_ES,
+    CADD_SELF, CSUB_SELF, CMUL_SELF, CDIV_SELF, CMUL_REF, CADD_REF,
     NEG, POW_ES, POW_SE, POW_EE, SQRT, EXP, LOG, LOG10, SIN, COS, TAN, ASIN, ACOS, ATAN, ATAN2_EE, ATAN2_ES,
     SINH, COSH, ASINH, ACOSH, ABS, MIN_EE, MIN_ES, MIN_SE, MAX_EE, MAX_ES, MAX_SE, NOPS
 };
 static const char* OPNAME[] = {
     "var", "const", "E+E", "E-E", "E*E", "E/E", "E+s", "E-s", "E*s", "E/s", "s+E", "s-E", "s*E", "s/E",
     "E+=E", "E-=E", "E*=E", "E/=E", "E+=s", "E-=s", "E*=s", "E/=s",
+    "x+=x", "x-=x", "x*=x", "x/=x", "x*=ref(x)", "x+=ref(x)",
     "neg", "pow(E,s)", "pow(s,E)", "pow(E,E)", "sqrt", "exp", "log", "log10", "sin", "cos", "tan", "asin", "acos", "atan",
     "atan2(E,E)", "atan2(E,s)", "sinh", "cosh", "asinh", "acosh", "abs", "min(E,E)", "min(E,s)", "min(s,E)", "max(E,E)", "max(E,s)", "max(s,E)"};
 
@@ -53,6 +55,11 @@ static bool refNode(const Node& n, const std::vector<Dual>& val, const std::vect
     case SUB_EE: case CSUB_EE: out = sub(*A, *B); return true;
     case MUL_EE: case CMUL_EE: out = mul(*A, *B); return true;
     case DIV_EE: case CDIV_EE: if (std::fabs(B->v) < 0.05) return false; out = dvd(*A, *B); return true;
+    // compound assignment whose right hand side IS the left hand side (in-place square etc.)
+    case CADD_SELF: case CADD_REF: out = add(*A, *A); return true;
+    case CSUB_SELF: out = sub(*A, *A); return true;
+    case CMUL_SELF: case CMUL_REF: out = mul(*A, *A); return true;
+    case CDIV_SELF: if (std::fabs(A->v) < 0.05) return false; out = dvd(*A, *A); return true;
     case ADD_ES: case CADD_ES: out = add(*A, konst(c, nv)); return true;
     case SUB_ES: case CSUB_ES: out = sub(*A, konst(c, nv)); return true;
     case MUL_ES: case CMUL_ES: out = mul(*A, konst(c, nv)); return true;
@@ -132,6 +139,12 @@ static E evalE(const std::vector<Node>& prog, const std::vector<E>& vars, MkCons
         case CSUB_EE: { E t = val[n.a]; t -= val[n.b]; val.push_back(t); break; }
         case CMUL_EE: { E t = val[n.a]; t *= val[n.b]; val.push_back(t); break; }
         case CDIV_EE: { E t = val[n.a]; t /= val[n.b]; val.push_back(t); break; }
+        case CADD_SELF: { E t = val[n.a]; t += t; val.push_back(t); break; }
+        case CSUB_SELF: { E t = val[n.a]; t -= t; val.push_back(t); break; }
+        case CMUL_SELF: { E t = val[n.a]; t *= t; val.push_back(t); break; }
+        case CDIV_SELF: { E t = val[n.a]; t /= t; val.push_back(t); break; }
+        case CMUL_REF: { E t = val[n.a]; const E& r = t; t *= r; val.push_back(t); break; }
+        case CADD_REF: { E t = val[n.a]; const E& r = t; t += r; val.push_back(t); break; }
         case CADD_ES: { E t = val[n.a]; t += c; val.push_back(t); break; }
         case CSUB_ES: { E t = val[n.a]; t -= c; val.push_back(t); break; }
         case CMUL_ES: { E t = val[n.a]; t *= c; val.push_back(t); break; }
